@@ -25,7 +25,7 @@
               temp file's inode — rename(2));
      tmps   : temp files in the cache root: live handle id -> inode id.  Temp names live
               in their own name space, which is sound because key paths never start with
-              TEMPFILE_PREFIX (make_key_path_not_temp in Proofs/DiskCache.v).
+              TEMPFILE_PREFIX (hex_keys_not_temp in Proofs/DiskCache.v).
    A write appends to the inode of the writing call's own handle and to nothing else.  *)
 From Coq Require Import List NArith Bool.
 From Sccache Require Import Base.Sx Model.Lru.
@@ -212,11 +212,13 @@ Definition is_call (th : thread) : bool :=
    started with capacity c on what is on disk; its first request initialises the cache *)
 Definition restart (c : N) (s : dst) : dst := ensure_init (boot c (persist s)).
 
-(* what a lookup of k would return right now (Open immediately followed by Read) *)
+(* what a lookup of k would return right now (Open immediately followed by Read; the first
+   request initialises the cache) *)
 Definition visible (s : dst) (k : key) : option (list N) :=
-  if amem k (index (lru s)) then
-    match alookup k (dir s) with
-    | Some ino => hlookup ino (inodes s)
+  let s1 := ensure_init s in
+  if amem k (index (lru s1)) then
+    match alookup k (dir s1) with
+    | Some ino => hlookup ino (inodes s1)
     | None => None
     end
   else None.
